@@ -143,11 +143,10 @@ def fetchArrayText (dsName name : List Char) (dims : List (List Char)) (ty : Ty)
     Children that are not indexed (short key) stay lazy and are absent from the list. -/
 def fetchGrid (og : Bool) (ty : Ty) (shape : List Nat) (vals : List Val) (maps : List (Ty × List Val))
     (pre : List PSlice) (key : List Idx) : List (Nat × Except Err (Data × Bytes)) :=
-  (gridGetitem og shape.length key).filterMap fun (c, ix) =>
-    if c = 0 then some (0, fetchArray ty shape vals pre ix)
-    else match maps[c - 1]?, shape[c - 1]? with
-      | some m, some n =>
-        some (c, fetchArray m.1 [n] m.2 ((pre[c - 1]?).toList) ix)
-      | _, _ => none
+  (gridGetitem og shape.length key).map fun ci =>
+    if ci.1 = 0 then (0, fetchArray ty shape vals pre ci.2)
+    else match maps[ci.1 - 1]?, shape[ci.1 - 1]? with
+      | some m, some n => (ci.1, fetchArray m.1 [n] m.2 ((pre[ci.1 - 1]?).toList) ci.2)
+      | _, _ => (ci.1, .error .template)    -- a grid with fewer maps than axes: outside the model
 
 end Pydap.E2E
